@@ -26,9 +26,14 @@ type c18Tree struct {
 	virtual  bool
 	children map[Node][]Node
 	roots    []*RootBlock
+	countFn  func(Node) int
+	childFn  func(Node, int) Node
 }
 
 func (t *c18Tree) count(n Node) int {
+	if t.countFn != nil {
+		return t.countFn(n)
+	}
 	if t.virtual {
 		return len(t.children[n])
 	}
@@ -39,6 +44,9 @@ func (t *c18Tree) count(n Node) int {
 }
 
 func (t *c18Tree) child(n Node, i int) Node {
+	if t.childFn != nil {
+		return t.childFn(n, i)
+	}
 	if t.virtual {
 		return t.children[n][i]
 	}
@@ -119,7 +127,26 @@ func H_C18(mode, d int) {
 	var root Node
 	custom := false
 	single := false
+	onlyCount, onlyChild := false, false
 	switch mode {
+	case 5, 6:
+		// exactly one user-supplied accessor: mode 5 a ChildCount that hides the children
+		// of emphasis and link nodes (default Child), mode 6 a Child that presents the
+		// children in reverse order (default ChildCount). Each must replace its default.
+		blocks, _ := Parse([]byte(c18Docs[d]))
+		root = blocks[0].AsNode()
+		if mode == 5 {
+			onlyCount = true
+			t.countFn = func(n Node) int {
+				if in := n.Inline(); in != nil && (in.Kind() == EmphasisKind || in.Kind() == LinkKind) {
+					return 0
+				}
+				return n.ChildCount()
+			}
+		} else {
+			onlyChild = true
+			t.childFn = func(n Node, i int) Node { return n.Child(n.ChildCount() - 1 - i) }
+		}
 	case 3, 4:
 		var doc []byte
 		if mode == 3 {
@@ -198,6 +225,7 @@ func H_C18(mode, d int) {
 		log = append(log, c18Event{post: post, node: c.Node(), parent: c.Parent(), index: c.Index(), block: c.ParentBlock(), ret: ret})
 		// Parent().Child(Index()) == Node(), through the custom child function when set
 		if c.Parent() != (Node{}) || (custom && mode == 1 && c.Index() >= 0) {
+			// (through the custom child function when one is set)
 			check(t.child(c.Parent(), c.Index()) == c.Node(), "C18.cursor-child-identity")
 		}
 		return ret
@@ -212,6 +240,12 @@ func H_C18(mode, d int) {
 	if custom {
 		opts.ChildCount = t.count
 		opts.Child = t.child
+	}
+	if onlyCount {
+		opts.ChildCount = t.countFn
+	}
+	if onlyChild {
+		opts.Child = t.childFn
 	}
 	Walk(root, opts)
 	ref := &c18Ref{t: t, log: log, hasPre: hasPre, hasPost: hasPost, ok: true}
